@@ -33,6 +33,18 @@ func verifNewRuleStub(line string, id int) (rules.Rule, error) {
 	if line == "" {
 		return nil, nil
 	}
+	if len(line) > 64 && line[0] == '!' {
+		// a long comment of the harnesses: '!' and a run of 'a' (checked against the real parser by the driver)
+		rest := true
+		for i := 1; i < len(line); i++ {
+			if line[i] != 'a' {
+				rest = false
+			}
+		}
+		if rest {
+			return nil, nil
+		}
+	}
 	if len(line) > 64 {
 		// the long lines of the harnesses are runs of 'a': a network rule (checked against the real parser by the driver)
 		allA := true
@@ -227,6 +239,28 @@ func verifC11File(n, bufLen int) {
 	verifAssert(e != nil, "c11: a negative index is an error")
 }
 
+// verifC11FileSeq: two retrievals in a row from one file-backed list (the read buffer is
+// reused: what an earlier retrieval left in it must not leak into a later one), content of
+// n bytes over {a, LF}, any two offsets in either order, full reads.
+func verifC11FileSeq(n, bufLen int) {
+	content := verifString("content", n, "a\n")
+	mem := &StringRuleList{ID: 3, RulesText: content}
+	fl := &FileRuleList{ID: 3, File: verifFile(content), buffer: make([]byte, bufLen)}
+	first := verifChoice("first", n+1)
+	second := verifChoice("second", n+1)
+	_, _ = fl.RetrieveRule(first)
+	r1, e1 := mem.RetrieveRule(second)
+	r2, e2 := fl.RetrieveRule(second)
+	verifReach("c11.fileseq")
+	verifAssert((e1 == nil) == (e2 == nil), "c11: file-backed and in-memory RetrieveRule fail together")
+	if e1 == nil && e2 == nil {
+		verifAssert((r1 == nil) == (r2 == nil), "c11: file-backed and in-memory RetrieveRule agree on nothing/rule")
+		if r1 != nil && r2 != nil {
+			verifAssert(verifKind(r1) == verifKind(r2) && r1.Text() == r2.Text() && r2.GetFilterListID() == 3, "c11: file-backed RetrieveRule == in-memory RetrieveRule")
+		}
+	}
+}
+
 // verifC11FileScan: scanning the file-backed list == scanning the in-memory list.
 func verifC11FileScan(n int) {
 	content := verifString("content", n, "a \n\r")
@@ -256,8 +290,14 @@ func verifC11FileScan(n int) {
 // equals the reference parse (kind, text, list id, index of the first byte of the
 // line) however long a line is, and every index retrieves its rule.
 func verifC11Long(k int) {
+	// k >= 100: the long line is a comment ('!' first): it and its tail yield nothing
+	first := "a"
+	if k >= 100 {
+		k -= 100
+		first = "!"
+	}
 	n := readerBufferSize - 4 + k
-	content := strings.Repeat("a", n) + verifString("mid", 4, "a\n") + "a"
+	content := first + strings.Repeat("a", n-1) + verifString("mid", 4, "a\n") + "a"
 	l := &StringRuleList{ID: 3, RulesText: content}
 	want := verifRefParse(content, 3, false)
 	sc := l.NewScanner()
